@@ -16,8 +16,10 @@ type Tree struct {
 }
 
 type ectx struct {
-	ns    string // instantiating module (owner module name)
-	steps int    // copy/merge steps on the way here
+	ns      string // instantiating module (owner module name)
+	steps   int    // copy/merge steps on the way here
+	viaUses bool
+	viaAug  bool
 }
 
 func (r *Ref) expandNodes(nodes []*ymodel.Node, s Scope, c ectx, into map[string]*XNode, parentKind string) {
@@ -36,6 +38,7 @@ func (r *Ref) expandNodes(nodes []*ymodel.Node, s Scope, c ectx, into map[string
 			r.usesAct[g] = true
 			cc := c
 			cc.steps++
+			cc.viaUses = true
 			r.expandNodes(g.Nodes, gs.Push(&g.Body), cc, into, parentKind)
 			delete(r.usesAct, g)
 		default:
@@ -44,7 +47,7 @@ func (r *Ref) expandNodes(nodes []*ymodel.Node, s Scope, c ectx, into map[string
 				continue
 			}
 			if parentKind == ymodel.KChoice && x.Kind != ymodel.KCase {
-				x = &XNode{Name: x.Name, Kind: ymodel.KCase, NS: x.NS, Implicit: true, Children: map[string]*XNode{x.Name: x}, CopySteps: x.CopySteps}
+				x = &XNode{Name: x.Name, Kind: ymodel.KCase, NS: x.NS, Implicit: true, Children: map[string]*XNode{x.Name: x}, CopySteps: x.CopySteps, Src: x.Src, ViaUses: x.ViaUses, ViaAug: x.ViaAug}
 			}
 			if into[x.Name] != nil {
 				r.problem("duplicate node %s", x.Name)
@@ -67,7 +70,7 @@ func parseU(s string, def uint64) uint64 {
 }
 
 func (r *Ref) expandNode(n *ymodel.Node, s Scope, c ectx) *XNode {
-	x := &XNode{Name: n.Name, Kind: n.Kind, NS: c.ns, Config: n.Config, Mandatory: n.Mandatory, CopySteps: c.steps}
+	x := &XNode{Name: n.Name, Kind: n.Kind, NS: c.ns, Config: n.Config, Mandatory: n.Mandatory, CopySteps: c.steps, Src: s.Mod.Name, ViaUses: c.viaUses, ViaAug: c.viaAug}
 	inner := s.Push(&n.Body)
 	switch n.Kind {
 	case ymodel.KLeaf, ymodel.KLeafList:
@@ -255,7 +258,7 @@ func (r *Ref) graftOne(trees map[string]*Tree, p pendingAug) bool {
 		ns = owner.Name
 	}
 	add := map[string]*XNode{}
-	r.expandNodes(p.aug.Nodes, Top(p.mod).Push(&p.aug.Body), ectx{ns: ns, steps: 1}, add, target.Kind)
+	r.expandNodes(p.aug.Nodes, Top(p.mod).Push(&p.aug.Body), ectx{ns: ns, steps: 1, viaAug: true}, add, target.Kind)
 	names := make([]string, 0, len(add))
 	for k := range add {
 		names = append(names, k)
